@@ -80,5 +80,10 @@ def observe (probes : List κ) (d : CIDict κ ν) : Obs κ ν :=
     data := CIDict.asDict d
     cmap := CIDict.caseMap d }
 
+/-- `Mapping.items()` as `collections.abc` defines it: `[(k, self[k]) for k in self]` (likewise
+    `keys()` is iteration and `values()` the second components) -/
+def mixinItems (d : CIDict κ ν) : List (κ × ν) :=
+  (CIDict.iter d).filterMap fun k => (CIDict.getitem lower d k).map fun v => (k, v)
+
 end
 end Upnp.C16
